@@ -176,7 +176,11 @@ def check_pda(acc, spec, L, depth, stack=('x', 'y'), only=None):
     from gambatools.pda_algorithms import pda_simulate_word
     from gambatools.global_settings import GambaTools
     R = pda.ref(spec, stack)
-    P = pda.build(spec, stack)
+    try:
+        P = pda.build(spec, stack)
+    except Exception:
+        acc.c['pda_rejected_by_the_constructor'] += 1     # e.g. multi-character stack symbols under a stricter constructor
+        return
     old = GambaTools.pda_epsilon_closure_max_iterations
     GambaTools.pda_epsilon_closure_max_iterations = PDA_LIMIT
     try:
@@ -306,7 +310,11 @@ def t_space(acc, kind, space, L, depth, shard, nshard, stride=1, offset=0, opt=N
     elif kind == 'nfa':
         gen = eps_heavy(*space[1:]) if space[0] == 'epsheavy' else (spaces.nfa_chains(space[1]) if space[0] == 'chain' else (spaces.nfas(4, 1, space[1], q0s=[0], fbits=[1, 2, 4, 8], tmin=space[1]) if space[0] == 'nfa4' else spaces.nfas(*space)))
     elif kind == 'pda':
-        gen = push_family() if space[0] == 'pushfamily' else pda.pdas(*space)
+        if space[0] == 'multichar':
+            from mc.props.c09 import multichar_family
+            gen = multichar_family()
+        else:
+            gen = push_family() if space[0] == 'pushfamily' else pda.pdas(*space)
     else:
         gen = cfg.cnf3(*space)
     for idx, spec in gen:
@@ -349,6 +357,7 @@ def plan(tier, seed):
     add('pda', [2, 1, 1, 3], 3, 1, 32, 8 if q else 1)
     add('pda', [2, 2, 1, 2], 2, 1, 16, 4 if q else 1)
     add('pda', ['pushfamily'], 2, 1, 32, 2 if q else 1)
+    add('pda', ['multichar'], 2, 1, 1, 1, opt=['A', 'B', 'AB'])
     add('pda', [2, 1, 2, 2], 2, 1, 8, 2 if q else 1)
     add('cfg', [4 if q else 5], 4, 1, 32)
     return {'tasks': tasks,
